@@ -596,6 +596,9 @@ void f_unique_mapping (void) {
         }
       if (!uptr)
         {
+          /* the error handler on the stack frees the table, as for an error in the callback */
+          if (numkeys >= CONFIG_INT (__MAX_MAPPING_SIZE__))
+            mapping_too_large ();
           uptr = ALLOCATE (unique_node_t, 103, "f_unique_mapping:4");
           assign_svalue_no_free (&uptr->key, sv);
           uptr->count = 1;
